@@ -38,8 +38,8 @@ var Check = &run.Check{
 		"at any line after the package line (license header before the package line, 0-3 blank lines, line / block / multi-line block comments between imports, trailing comment, indentation, LF or CRLF, with or without final newline); " +
 		"every import is PLANTED with kind (single-type / wildcard / static method / static constant / static wildcard) and with the exact set of roles in which its simple name is used in that file " +
 		"(type of field/parameter/local/return, array, varargs, generic argument, bound, extends/implements, cast, instanceof, class literal, annotation on class/method/field/parameter/local with and without arguments, " +
-		"new incl. diamond/array/anonymous/argument, static receiver of a call or field, method reference, catch incl. multi-catch, throws, qualifier of a nested type/annotation/exception, " +
-		"unqualified call of a statically imported method, bare read of a statically imported constant in 11 positions) or none; per-file profile none / clean / dirty / all-unused, same simple names used in one file and unused in another; " +
+		"new incl. diamond/array/anonymous/argument, static receiver of a call or field, method reference, catch incl. multi-catch, throws, qualifier of a nested type/annotation/exception in two-, three- and four-segment names, " +
+		"unqualified call of a statically imported method, bare read of a statically imported constant in 11 positions) or none; per-file profile none / clean / dirty / all-unused, same simple names used in one file and unused in another; production classes named Contest / Latest / Protests / OrderBacktests ...; real *Test.java / *Tests.java files as bystanders; " +
 		"run through unused.NewRemoveUnusedImportApp(dir).Analysis()+Refactoring() twice, every Nth case through `coca refactor -m cfg -p dir` twice; " +
 		"non-trivial = >= 2 files with planted-unused imports, each of which also holds >= 1 import that must be kept; distinct = hash of (layout, per file: type kind, header, per import: kind, roles, gap, style, line ending)",
 	Assumptions: []string{
@@ -48,6 +48,7 @@ var Check = &run.Check{
 		"an unqualified call of a statically imported method and a bare read of a statically imported constant are references to the import's simple name (the statement says 'referenced nowhere else in its file')",
 		"not generated: several imports on one line, multi-line imports, duplicate imports, fully-qualified uses of an imported name, a simple name that is also declared in the file, test files / .gitignore (skipped by design)",
 		"lines are '\\n'-separated; for CRLF files the '\\r' belongs to the line",
+		"files named *Test.java / *Tests.java (exactly this case) are test sources the tool's walk skips by design: their unused imports may stay (counted), frame / soundness / idempotence still apply; a name ending in lower-case test/tests (Contest.java) is an ordinary file",
 		"`coca refactor -m cfg -p dir` runs MoveClassApp.Analysis (read-only; the config file is not opened) and then the unused-import removal; that is the only CLI route to the removal",
 	},
 	Cases: cases,
@@ -110,7 +111,12 @@ func runCase(c *run.Ctx, o *run.Outcome) {
 		if f.CRLF {
 			o.Count("files_crlf", 1)
 		}
-		if f.CountUnused() > 0 {
+		if low := strings.ToLower(f.TypeName); !f.Bystander && (strings.HasSuffix(low, "test") || strings.HasSuffix(low, "tests")) {
+			o.Count("files_main_name_ends_in_lower_case_test", 1)
+		}
+		if f.Bystander {
+			o.Count("files_test_by_name_bystander", 1)
+		} else if f.CountUnused() > 0 {
 			filesWithUnused++
 			if f.CountMustKeep() == 0 {
 				keptInEach = false
@@ -233,6 +239,7 @@ func runCase(c *run.Ctx, o *run.Outcome) {
 	o.Count("imports_must_keep_kept", st.Kept)
 	o.Count("imports_unused_planted", st.Unused)
 	o.Count("imports_unused_deleted", st.UnusedDeleted)
+	o.Count("bystander_unused_imports_left", st.BystanderUnusedKept)
 	o.Count("imports_ambiguous_planted", st.Ambiguous)
 	o.Count("imports_ambiguous_deleted", st.AmbiguousDeleted)
 	o.Count("lines_deleted", st.LinesDeleted)
